@@ -62,3 +62,20 @@ Proof.
   apply reduce_steps, steps_star in H1. apply reduce_steps, steps_star in H2.
   apply nor_normalises; auto. eapply nf_stable; eauto. apply nfb_nf; auto.
 Qed.
+
+(** ** C07: HNO and HSP *)
+From LC Require Import Proofs.HeadSpine.
+
+Theorem hno_reduce_normalises t v : red t v -> nfb v = true -> exists fuel c, reduce_m fuel HNO 0 t = Some (v, c).
+Proof.
+  intros H N. destruct (hno_normalises t v H N) as [n Hn].
+  destruct (reduce_complete_unlimited HNO n t v) as [f E]; auto.
+  - apply (proj2 (stuck_nf HNO v)). exact N.
+  - exists f, n; auto.
+Qed.
+
+Theorem hsp_reduce_normalises t h : red t h -> hnfb h = true -> exists fuel r, reduce_m fuel HSP 0 t = Some r.
+Proof.
+  intros H N. destruct (hsp_normalises t h H N) as (k & u & I & S).
+  destruct (reduce_complete_unlimited HSP k t u) as [f E]; auto. eauto.
+Qed.
